@@ -4298,7 +4298,9 @@ def _logical_lines(src: str) -> List[str]:
     lines = src.splitlines()
     try:
         tokens = list(tokenize.generate_tokens(io.StringIO(src).readline))
-    except (tokenize.TokenError, IndentationError, SyntaxError):
+    except Exception:
+        # not Python (TokenError, IndentationError, SyntaxError - and, for a NUL byte,
+        # the SystemError CPython 3.12's tokenizer raises): the handlers will reject it
         return lines
 
     compound = {"if", "elif", "else", "for", "while", "def", "class", "try", "except", "finally", "with"}
